@@ -71,6 +71,13 @@ func main() {
 		tieW:  res.Tie("waste-records", "K4", "a stream a trait handler COMPOSES from a record history and a Value.Pull - wastepb ModelServer.PullWasteRecords, opened through the real handler with a server stream of the harness - (a) on a quiet model and (b) while an AddWasteRecord is parked at value.set.beforeSend (its Set committed; neither its publication nor its append to the history done) or inside that Set's Bus.Send after its snapshot of the listeners (bus.send.afterSnapshot): ALL (number of records before {0,1,2,3,49,50,51} around the 50-record window, quiet / mid-add, read mask {none, id, area}, updates-only on/off, 1 or 2 records added afterwards); compared with the model's wasteStream (Waste.lean): every record the stream sent, in order; distinct = distinct scenarios"),
 		mon:   res.Monitor("writer-log", "the stream each subscriber received vs the writer's own log: seed = current contents sorted by id, flagged, last flagged last, stored change time; then exactly one event per successful write (none for failed writes or a no-op delete), id/kind/old/new from what the writer's calls returned, time = write time or a clock reading within the write, suppression iff the configured equivalence relates the compared pair"),
 	}
+	if os.Getenv("C04_ONLY") == "waste" { // development: the waste-records family alone
+		h.wasteScope(f.Tier == "thorough")
+		if err := res.Write(f.Out); err != nil {
+			lib.Fatal(err)
+		}
+		return
+	}
 	r := lib.NewRand(f.Seed)
 	stalls := startStalls(stallScripts(f.Tier == "thorough"))
 	stages := map[string]float64{}
